@@ -178,6 +178,11 @@ class ImageBands(NITFLoop):
             self._count_size = self.NBANDS_LEN
 
     @classmethod
+    def _values_limit(cls):
+        # more than 9 bands are announced by the XBANDS field
+        return 10**cls.XBANDS_LEN - 1
+
+    @classmethod
     def _parse_count(cls, value, start):
         count, loc = super()._parse_count(value, start)
         if count == 0:
